@@ -30,9 +30,10 @@ register(Contract(
     ghost={"g_done": "bool"},  # set by the normal return of __scan_file: "the file was scanned to completion"
     ensures=["result == g_done", MONO],
     xensures={"BaseException": [MONO]},
+    # C15: a file that cannot be read or decoded is a per-file failure like a failing rule: it never escapes as OSError / UnicodeError
+    # (D26 fixed) but goes through __handle_scan_error, which names the file: the result is False or SystemExit(SYSTEM_ERROR)
     raises=[Raises("SystemExit", code=SYSERR),
-            Raises("BadTokenizationError", when="not self.__continue_on_error"),
-            Raises("OSError"), Raises("UnicodeError")],
+            Raises("BadTokenizationError", when="not self.__continue_on_error")],
     modifies=["*", "number_of_scan_failures"],
     calls={"self.__scan_file": (FSH + "__scan_file", ["g_done = True"])},
 ))
@@ -255,7 +256,7 @@ register(Contract(
              MONO],
     xensures={"BaseException": [MONO, "forall_val(lambda x: (x in g_files) == old(x in g_files))"]},
     raises=[Raises("SystemExit", code=SYSERR), Raises("BadTokenizationError", when="not self.__continue_on_error"),
-            Raises("OSError"), Raises("UnicodeError"), Raises("AssertionError"), Raises("KeyError")],
+            Raises("AssertionError"), Raises("KeyError")],
     modifies=["*", "number_of_scan_failures", "g_files.$dict", "g_written.$dict"],
 ))
 
